@@ -328,7 +328,9 @@ var biased = []string{
 // enumerate builds all programs of constructor depth ≤ 2 over the atoms (all of them in the thorough
 // tier, a deterministic-random half in the quick tier), plus if/bind shapes of depth 1.
 func enumerate(thorough bool, r *common.Rand) []string {
-	atoms := []string{".", "1", "\"a\"", "null", ".a", "empty", "[.]", "$__loc__.line", "[]", "-1"}
+	// $v / $w: a variable reference compiles to `pop; load`, so it puts a load at the END of an
+	// alternative and a pop at the START of whatever follows (the join point of a comma/if/try)
+	atoms := []string{".", "1", "\"a\"", "null", ".a", "empty", "[.]", "$__loc__.line", "[]", "-1", "$v", "$w"}
 	un := []string{"[%s]", "{a: %s}", "-(%s)", "(%s)?", ".[%s]?", "[%s, 2]", "{(%s|tostring): 1}", "first(%s)", "(%s) as $x | $x", "[%s] | length", "path(%s)?", "(%s) |= 1", "(%s) = 1", "try (%s) catch 1", "label $l | %s"}
 	bin := []string{"%s, %s", "%s | %s", "%s // %s", "%s + %s", "(%s)[%s]?", "[%s, %s]", "{a: %s, b: %s}", "%s == %s", "%s and %s", "if %s then %s else 3 end", "reduce (%s) as $x (0; %s)", "(%s) as $x | %s"}
 	l1 := atoms
@@ -374,6 +376,11 @@ func enumerate(thorough bool, r *common.Rand) []string {
 					out = append(out, fmt.Sprintf(b, a, c, d))
 				}
 			}
+		}
+	}
+	for i, q := range out {
+		if strings.Contains(q, "$v") || strings.Contains(q, "$w") {
+			out[i] = "1 as $v | [2] as $w | " + q
 		}
 	}
 	return out
